@@ -104,6 +104,9 @@ class Check:
         """yield (scripts, real_outs) batches; the direct oracle is attached to `real`"""
         return []
 
+    def on_reset(self):
+        """a new history starts (oracle bookkeeping is reset here)"""
+
     def pre(self, real, line):
         """snapshot taken before `line` is executed (handed to `oracle`)"""
         return None
@@ -160,6 +163,7 @@ class OracleReal:
     def step(self, line):
         if line.startswith("reset"):
             self.history = []
+            self.check.on_reset()
         self.history.append(line)
         audit = line.startswith(("obs", "reset"))
         pre = None if audit else self.check.pre(self.inner, line)
